@@ -1277,6 +1277,18 @@ def gen_simd_kernels(repo):
     sk = ' ; '.join('%s(%s)' % (c, ' '.join(a.split())) for c, a in calls)
     out += '/-- %s: vert_convolution_into_one_row: every intrinsic / helper call with its arguments, in textual order -/\n' % f
     out += 'def vert_u8_sse4_skeleton : String := "%s"\n\n' % sk.replace('"', '\\"')
+    # ... and its AVX2 twin: 256-bit in-lane instructions for the 32-component step, the SSE4.1 code for 8 and 4
+    f = 'src/convolution/vertical_u8/avx2.rs'
+    with open(os.path.join(repo, f)) as fh:
+        src = fh.read()
+    m = re.search(r'unsafe fn vert_convolution_into_one_row<T, const PRECISION: i32>\(.*?\n\}', src, re.S)
+    if not m:
+        raise TranslationError("%s: vert_convolution_into_one_row not found" % f)
+    body = re.sub(r'//[^\n]*', '', m.group(0))
+    calls = re.findall(r'\b(_mm(?:256)?_\w+(?:::<\w+>)?|simd_utils::\w+|chunks_exact_mut|chunks_exact|into_remainder|remainder|first|iter_2_rows|iter_rows|native::\w+)\(([^()]*(?:\([^()]*\)[^()]*)*)\)', body)
+    sk = ' ; '.join('%s(%s)' % (c, ' '.join(a.split())) for c, a in calls)
+    out += '/-- %s: vert_convolution_into_one_row: every intrinsic / helper call with its arguments, in textual order -/\n' % f
+    out += 'def vert_u8_avx2_skeleton : String := "%s"\n\n' % sk.replace('"', '\\"')
     return out
 
 def gen_sizes(repo):
